@@ -5,10 +5,12 @@
   lists; the two write-through paths are `get_or_create_label` and — before fix 9b4c429 — `set_vector`).
 -/
 import Nervus.Proofs.EngineAbort
+import Nervus.Proofs.CheckpointHist
 import Nervus.Model.Triggers
 namespace Nervus.Props.C07
 open Nervus Nervus.Storage
 open Nervus.GraphSpec (TxOp Op)
+
 
 /-- the C07 fix is present in the source (regenerated table entry): `set_vector` stages the vector -/
 theorem vectors_staged : Cfg.current.vecStaged = true := by decide
@@ -65,6 +67,101 @@ theorem abort_no_trace_hist (h : List Op) (t : List TxOp) (s : Engine)
     simp only at this
     obtain ⟨h1, _, _, _, h5, h6, h7, h8, h9, h10, h11, h12, h13⟩ := this
     exact ⟨h1, h8, h9, h6, h7, h10, h11, h5, h12, h13⟩
+
+/-! ### failed commits: the log prefix they leave, and what replay makes of it -/
+
+/-- the grouping loop of `Wal::replay_committed` drops its buffered records at every BeginTx
+    (regenerated table entry; seed C07-seed1 makes it false) -/
+theorem replay_resets_pending_at_begin : Generated.replayResetsPendingAtBegin = true := by decide
+
+/-- **record level, every log**: for EVERY log that consists of complete transactions and — anywhere
+    between them and at the end — fragments `BeginTx, records…` that never got their CommitTx (failed
+    commits, crashes), `replay_committed` returns exactly the complete transactions, each with the
+    records strictly between its BeginTx and ITS CommitTx, in file order.  (`Blocks`, Proofs/WalBlocks.) -/
+theorem replay_sees_committed_only {w : List WalRec} {txs : List (Nat × List WalRec)} (h : Blocks w txs) :
+    replayCommitted w none [] = .ok txs := h.parse
+
+/-- the same as an equation between logs: a fragment between two parts of a log changes nothing -/
+theorem replay_drops_fragment {w w' : List WalRec} {txs txs' : List (Nat × List WalRec)}
+    (h : Blocks w txs) (h' : Blocks w' txs') (t : Nat) (body : List WalRec) (hb : ∀ r ∈ body, r.isBody = true) :
+    replayCommitted (w ++ (WalRec.beginTx t :: (body ++ w'))) none [] = replayCommitted (w ++ w') none [] := by
+  rw [(h.concat (Blocks.abandoned hb h')).parse, (h.concat h').parse]
+
+/-- without the reset (the seeded grouping loop) the records of a failed commit are handed to the next
+    transaction that commits -/
+theorem C07_counterexample_replay_without_reset :
+    replayCommittedWith false
+      [.beginTx 5, .setNodeProperty 0 363 7, .beginTx 6, .createEdge ⟨0, 1, 1⟩, .commitTx 6] none [] =
+      .ok [(6, [.setNodeProperty 0 363 7, .createEdge ⟨0, 1, 1⟩])] ∧
+    replayCommittedWith true
+      [.beginTx 5, .setNodeProperty 0 363 7, .beginTx 6, .createEdge ⟨0, 1, 1⟩, .commitTx 6] none [] =
+      .ok [(6, [.createEdge ⟨0, 1, 1⟩])] := ⟨rfl, rfl⟩
+
+/-- every read interface answers alike (what `Eqv` says, spelled out) -/
+def SameReads (s u : Engine) : Prop :=
+  s.nodes = u.nodes ∧ s.nodesSnap = u.nodesSnap ∧ s.isTombstoned = u.isTombstoned ∧
+  (∀ n rel, PermOpt (s.neighbors n rel) (u.neighbors n rel)) ∧
+  (∀ n rel, PermOpt (s.incoming Cfg.current n rel) (u.incoming Cfg.current n rel)) ∧
+  (∀ n k, s.nodeProp n k = u.nodeProp n k) ∧ (∀ e k, s.edgeProp e k = u.edgeProp e k) ∧
+  (∀ n k, (s.nodeProps n).lookup k = (u.nodeProps n).lookup k) ∧
+  (∀ e k, (s.edgeProps e).lookup k = (u.edgeProps e).lookup k) ∧
+  s.nodeLabels = u.nodeLabels ∧ s.nodeLabelNames = u.nodeLabelNames ∧ s.resolveExternal = u.resolveExternal ∧
+  s.lookupInternal = u.lookupInternal ∧ s.interner = u.interner ∧ s.vecNodes = u.vecNodes
+
+/-- **one failed commit, state level**: a commit that fails at ANY of its log appends (`j` arbitrary:
+    record larger than 1 MiB, value nested too deeply, I/O error; `j = 0`: nothing was appended) changes
+    no read interface — exactly like dropping the transaction — and leaves files from which `open`
+    rebuilds an engine that no read can tell from the one before the transaction, whatever was committed
+    before (`Rec`: the log is `Blocks`, the fragment is dropped by replay). -/
+theorem failed_commit_no_trace (s : Engine) (ops : List TxOp) (j : Nat) :
+    let s' := runTxFail Cfg.current s ops j
+    s'.nodes = s.nodes ∧ s'.nodesSnap = s.nodesSnap ∧ s'.isTombstoned = s.isTombstoned ∧
+    s'.resolveExternal = s.resolveExternal ∧ s'.nodeLabels = s.nodeLabels ∧ s'.nodeProp = s.nodeProp ∧
+    s'.nodeProps = s.nodeProps ∧ s'.neighbors = s.neighbors ∧ s'.incoming Cfg.current = s.incoming Cfg.current ∧
+    s'.edgeProp = s.edgeProp ∧ s'.edgeProps = s.edgeProps ∧ s'.lookupInternal = s.lookupInternal ∧
+    s'.vecNodes = s.vecNodes := by
+  have hv := fold_view Cfg.current vectors_staged ops s.beginWrite
+  have h1 : SameView s (ops.foldl (stepTx Cfg.current) s.beginWrite).1 :=
+    SameView.trans (b := s.beginWrite.1) ⟨rfl, rfl, rfl, rfl, rfl, rfl, rfl, rfl, rfl, rfl, List.prefix_refl _⟩ hv
+  have h2 : SameView s (runTxFail Cfg.current s ops j) :=
+    ⟨h1.runs, h1.idmap, h1.segs, h1.segStore, h1.store, h1.root, h1.storeRoot, h1.vecs, h1.epoch, h1.ckpt, h1.pre⟩
+  exact h2.reads Cfg.current
+
+/-- **failed commits, history level (also after reopen)**.  For EVERY history of transactions
+    (committed, dropped, or with a commit that FAILED at any of its log appends), compactions, closes
+    and reopens whose view without the log (`XOp.erase`: a failed commit is an abandoned transaction) is
+    well-formed, triggers no C06 finding and is `xHistSafe`: the history runs; a further reopen succeeds;
+    and — live and after that reopen — the engine answers every read like the shadow engine `u` that ran
+    only the transactions of the erased history (the failed ones as abandoned ones: they intern names and
+    nothing else), which agrees with the Spec graph in which the failed transactions never happened.
+    Uncommitted ⇒ no trace, also after reopen, also when later transactions commit behind the fragment. -/
+theorem failed_commits_no_trace_hist (xs : List XOp)
+    (hwf : GraphSpec.wellFormed (xs.map XOp.erase) = true)
+    (hk : GraphSpec.noC06Trigger (xs.map XOp.erase) = true) (hsz : histSize (xs.map XOp.erase) ≤ labelMax)
+    (hs : xHistSafe Cfg.current {} xs = true) :
+    ∃ s s' u, xs.foldlM (runX Cfg.current) {} = .ok s ∧ s.reopen = .ok s' ∧
+      Storage.run Cfg.current (txPart (xs.map XOp.erase)) = .ok u ∧
+      SameReads s u ∧ SameReads s' u ∧ ReadsAgree Cfg.current u (GraphSpec.run (xs.map XOp.erase)) := by
+  simp only [GraphSpec.noC06Trigger, Bool.and_eq_true, Bool.not_eq_true'] at hk
+  obtain ⟨⟨⟨k1, k2⟩, k3⟩, k4⟩ := hk
+  obtain ⟨s, u, hrun, hrunu, hP⟩ := hist_pairX xs {} {} {} Pair.empty hs hwf (by simpa using hsz) k1 k2 k3 k4
+  obtain ⟨s', hopen, hP'⟩ := hP.reopen
+  exact ⟨s, s', u, hrun, hopen, hrunu, hP.eqv.reads, hP'.eqv.reads, hP.sim.reads _⟩
+
+/-- non-vacuity: a failed commit with records in the log, a committed transaction behind it, a
+    compaction, another failed commit (nothing appended), reopen, more writes -/
+def hFailed : List XOp :=
+  [ .op (.tx [.node 10 (some 321), .node 11 none, .edge 0 338 1, .nprop 0 363 7] true),
+    .txFail [.node 12 (some 322), .edge 0 338 1, .nprop 0 363 9, .eprop 0 338 1 363 5, .tombNode 2] 4,
+    .op (.tx [.node 12 none, .edge 2 338 0, .nprop 2 363 1] true),
+    .op .compact,
+    .txFail [.nprop 1 363 4] 0,
+    .op .reopen,
+    .txFail [.tombEdge 0 338 1, .node 13 none] 9,
+    .op (.tx [.nprop 1 363 2] true), .op .close ]
+
+example : xHistSafe Cfg.current {} hFailed = true ∧ GraphSpec.wellFormed (hFailed.map XOp.erase) = true ∧
+    GraphSpec.noC06Trigger (hFailed.map XOp.erase) = true ∧ histSize (hFailed.map XOp.erase) ≤ labelMax := by decide
 
 /-- vector search never returns a node that a published run tombstones (fix b85f233 of the index
     builder; a deleted node is not an existing node) -/
